@@ -406,11 +406,12 @@ class X12Reader(X12Base):
         for line in self.raw:
             # We have not yet incremented cur_line
             if line.startswith(' '):
-                err_str = 'Segment contains a leading space'
-                self._seg_error('1', err_str, None, src_line=self.cur_line + 1)
                 line = line.lstrip(' \r\n')
                 if line == '':
+                    # nothing but blanks between two terminators: not a segment
                     continue
+                err_str = 'Segment contains a leading space'
+                self._seg_error('1', err_str, None, src_line=self.cur_line + 1)
             if line[-1] == self.ele_term:
                 err_str = 'Segment contains trailing element terminators'
                 self._seg_error('SEG1', err_str, None, src_line=self.cur_line + 1)
